@@ -236,6 +236,17 @@ template <class Json> static void toon_case(Rng& r, const char* policy) {
         v = Json(json_array_arg); size_t n = 1 + r.below(4), c = 1 + r.below(4); std::vector<std::string> ks; for (size_t j = 0; j < c; ++j) ks.push_back(gen_key(r) + std::to_string(j));
         for (size_t i = 0; i < n; ++i) { Json o(json_object_arg); for (auto& k : ks) o.try_emplace(k, gen_scalar_value<Json>(r, g)); v.push_back(std::move(o)); }
         if (r.coin()) { Json w(json_object_arg); w.try_emplace(gen_key(r), std::move(v)); v = std::move(w); }
+    } else if (r.chance(1, 5)) {   // list items (non-uniform objects inside an array) whose members are primitives, primitive arrays and arrays of primitive arrays, in any order
+        v = Json(json_array_arg); size_t n = 1 + r.below(3);
+        for (size_t i = 0; i < n; ++i) { Json o(json_object_arg); size_t c = 1 + r.below(3);
+            for (size_t j = 0; j < c; ++j) { std::string k = std::string(1, (char)('a' + r.below(26))) + "k" + std::to_string(i) + std::to_string(j); Json mv;
+                switch (r.below(3)) { case 0: mv = gen_scalar_value<Json>(r, g); break;
+                    case 1: { mv = Json(json_array_arg); size_t m = 1 + r.below(3); for (size_t q = 0; q < m; ++q) mv.push_back(gen_scalar_value<Json>(r, g)); break; }
+                    default: { mv = Json(json_array_arg); size_t rows = 1 + r.below(3); for (size_t q = 0; q < rows; ++q) { Json row(json_array_arg); size_t m = 1 + r.below(3); for (size_t z = 0; z < m; ++z) row.push_back(gen_scalar_value<Json>(r, g)); mv.push_back(std::move(row)); } } }
+                o.try_emplace(k, std::move(mv)); }
+            v.push_back(std::move(o)); }
+        if (r.coin()) { Json w(json_object_arg); w.try_emplace(gen_key(r), std::move(v)); v = std::move(w); }
+        H.count_("toon.list_item_shapes");
     } else v = gen_value<Json>(r, g);
     for (int tries = 0; tries < 50 && !toon_safe(v); ++tries) { H.count_("toon.regenerated_outside_judged_domain"); GenCfg g2 = g; g2.max_depth = 1 + (int)r.below(3); v = gen_value<Json>(r, g2); }
     if (!toon_safe(v)) v = Json("fallback");
